@@ -374,7 +374,7 @@ class C15(Prop):
             if tier != 'quick' and i in (0, 4, 8):
                 yield from self._dfs(src, 3, want, counter)
         k = counter[0]
-        n = 1500 if tier == 'quick' else 50000
+        n = 1500 if tier == 'quick' else 30000
         for j in range(n):
             k += 1
             if not want(k):
